@@ -211,6 +211,7 @@ func (p *Parser) ParseReader(r io.Reader, args ...any) (data any, err error) {
 
 			return
 		}
+		p.noff -= len(buf) - skip // keep the newline offset relative to the next buffer
 		skip = 0
 		if eof {
 			break
